@@ -284,3 +284,98 @@ Definition read_obj (s : str) : option (list kv * str) :=
     end
   | _ => None
   end.
+
+(* ---------- the mediaType a manifest document declares (what a registry or a store dispatches on) ---------- *)
+Fixpoint strip_prefix (p s : str) : option str :=
+  match p with
+  | [] => Some s
+  | c :: p' =>
+    match s with
+    | d :: s' => if c =? d then strip_prefix p' s' else None
+    | [] => None
+    end
+  end.
+
+(* "name":<string> at the head of s *)
+Definition read_field (name : string) (s : str) : option (str * str) :=
+  match strip_prefix (json_string (b name) ++ [58]) s with
+  | Some r => read_string r
+  | None => None
+  end.
+
+(* the first field, or the one after "schemaVersion":2 *)
+Definition doc_media_type (s : str) : option str :=
+  match strip_prefix [123] s with
+  | Some r =>
+    let r' := match strip_prefix (field "schemaVersion" [50] ++ comma) r with Some x => x | None => r end in
+    match read_field "mediaType" r' with Some (mt, _) => Some mt | None => None end
+  | None => None
+  end.
+
+(* ... and, right after it, the artifactType when the document has one *)
+Definition doc_artifact_type (s : str) : option str :=
+  match strip_prefix [123] s with
+  | Some r =>
+    let r' := match strip_prefix (field "schemaVersion" [50] ++ comma) r with Some x => x | None => r end in
+    match read_field "mediaType" r' with
+    | Some (_, r2) =>
+      match strip_prefix comma r2 with
+      | Some r3 => match read_field "artifactType" r3 with Some (a, _) => Some a | None => None end
+      | None => None
+      end
+    | None => None
+    end
+  | None => None
+  end.
+
+(* ---------- the config descriptor a manifest document declares: mediaType, digest, size ---------- *)
+(* a run of decimal digits *)
+Fixpoint read_digits (s : str) (acc : N) : N * str :=
+  match s with
+  | c :: r => if is_digit c then read_digits r (acc * 10 + (c - 48)) else (acc, s)
+  | [] => (acc, [])
+  end.
+
+(* from "config":{ on *)
+Definition read_config_head (r5 : str) : option (str * str * N) :=
+  match strip_prefix (json_string (b "config") ++ [58; 123]) r5 with
+  | None => None
+  | Some r6 =>
+    match read_field "mediaType" r6 with
+    | None => None
+    | Some (mt, r7) =>
+      match strip_prefix comma r7 with
+      | None => None
+      | Some r8 =>
+        match read_field "digest" r8 with
+        | None => None
+        | Some (dg, r9) =>
+          match strip_prefix (comma ++ json_string (b "size") ++ [58]) r9 with
+          | None => None
+          | Some r10 => Some (mt, dg, fst (read_digits r10 0))
+          end
+        end
+      end
+    end
+  end.
+
+Definition doc_config_head (s : str) : option (str * str * N) :=
+  match strip_prefix [123] s with
+  | None => None
+  | Some r =>
+    let r1 := match strip_prefix (field "schemaVersion" [50] ++ comma) r with Some x => x | None => r end in
+    match read_field "mediaType" r1 with
+    | None => None
+    | Some (_, r2) =>
+      match strip_prefix comma r2 with
+      | None => None
+      | Some r3 =>
+        read_config_head
+          match read_field "artifactType" r3 with
+          | Some (_, r4) => match strip_prefix comma r4 with Some x => x | None => r4 end
+          | None => r3
+          end
+      end
+    end
+  end.
+
